@@ -92,6 +92,22 @@ Definition named_step (Sc : fschema) (n : fnode) (nm : bytes) : M fnode :=
   | _ => sret n
   end.
 
+(* serialize_unit_variant on a union: a unit variant named after the null variant of the union
+   (the name the deserializer reports for it) designates that variant; otherwise by type *)
+Definition unit_variant_null (Sc : fschema) (n : fnode) (variant : bytes) (by_type : M unit) : M unit :=
+  match n with
+  | FUnion ks =>
+      match union_named Sc ks variant with
+      | Some (d, k') =>
+          match fnode_at Sc k' with
+          | Some FNull => write_varint d
+          | _ => by_type
+          end
+      | None => by_type
+      end
+  | _ => by_type
+  end.
+
 (** * Decimals (decimal.rs and the integer path of serialize_integer) *)
 Definition is_digit (b : N) : bool := (48 <=? b) && (b <=? 57).
 Fixpoint digits_val (ds : bytes) (acc : N) : N :=
@@ -822,12 +838,13 @@ Fixpoint ser (n : fnode) (v : sval) {struct v} : M unit :=
         | _ => fail (Err EData)
         end)
   | SUnitVariant _ _ variant =>
-      via_union Sc n KUnitVariant (fun n' =>
-        match n' with
-        | FNull => if bytes_eqb variant NULLNAME then sret tt else fail (Err EData)
-        | FString | FBytes | FEnum _ _ => ser_str_leaf variant n'
-        | _ => fail (Err EData)
-        end)
+      unit_variant_null Sc n variant
+        (via_union Sc n KUnitVariant (fun n' =>
+          match n' with
+          | FNull => if bytes_eqb variant NULLNAME then sret tt else fail (Err EData)
+          | FString | FBytes | FEnum _ _ => ser_str_leaf variant n'
+          | _ => fail (Err EData)
+          end))
   | SNewtypeStruct nm v' => do* n' <- named_step Sc n nm; ser n' v'
   | SNewtypeVariant _ _ variant v' => do* n' <- named_step Sc n variant; ser n' v'
   | SSeq len vs => via_union Sc n KSeqOrTupleOrTupleStruct (seq_leaf at_key len vs)
